@@ -1,15 +1,22 @@
 // olx — fact extractor (tie T3): loads /repo's current working tree with go/packages + go/types
 // and regenerates /verif/lean/OLP/Gen/Facts.lean, tables of structural facts over which the
 // Lean side discharges obligations by `decide`:
-//   hookAims       every use of a singleton store inside the block hooks of package app, in source
-//                  order, with whether it is re-aimed (`.WithState(...)`) at that point
-//   sessionRule    the commit/discard discipline of txDeliverer / txChecker
-//   mapRanges      every `range` over a map in the consensus packages (function, expression,
-//                  whether a sort call follows in the same function, whether the body writes)
-//   envUses        uses of clock / randomness / uuid / environment / node identity / witness flag
-//   volatileSets   calls that overwrite in-memory option copies of singleton stores
-//   fatalSites     Fatal / panic / os.Exit call sites in the consensus packages
-//   signerRows     for every message type: fields returned by Signers()
+//
+//	hookAims       every use of a singleton store inside the block hooks of package app, in source
+//	               order, with whether it is re-aimed (`.WithState(...)`) at that point
+//	sessionRule    the commit/discard discipline of txDeliverer / txChecker
+//	mapRanges      every `range` over a map in the consensus packages (function, expression,
+//	               whether a sort call follows in the same function, whether the body writes)
+//	envUses        uses of clock / randomness / uuid / environment / node identity / witness flag
+//	volatileSets   calls that overwrite in-memory option copies of singleton stores
+//	fatalSites     Fatal / panic / os.Exit call sites in the consensus packages
+//	signerRows     for every message type: fields returned by Signers()
+//	validateRows   (C04) for every type implementing action.Tx: how its Validate treats signatures
+//	               (basic = Unmarshal(tx.Data) then action.ValidateBasic(tx.RawBytes(), msg.Signers(),
+//	               tx.Signatures) with failure returned, before any `return true`), and whether every
+//	               return is (false, non-nil) or (true, nil)
+//	routeRows      (C04) every AddHandler registration / common.ExtTx literal: kind, handler type
+//	validateGuards (C04) how txChecker / txDeliverer react to a failing Validate
 package main
 
 import (
@@ -80,7 +87,9 @@ func render(fset *token.FileSet, n ast.Node) string {
 	return s
 }
 
-func lq(s string) string { return "\"" + strings.ReplaceAll(strings.ReplaceAll(s, "\\", "\\\\"), "\"", "\\\"") + "\"" }
+func lq(s string) string {
+	return "\"" + strings.ReplaceAll(strings.ReplaceAll(s, "\\", "\\\\"), "\"", "\\\"") + "\""
+}
 
 type rows [][]string
 
@@ -117,6 +126,202 @@ func treeHash(root string) string {
 	return hex.EncodeToString(h.Sum(nil))
 }
 
+const modPath = "github.com/Oneledger/protocol"
+
+func shortPkg(p string) string { return strings.TrimPrefix(p, modPath+"/") }
+
+// namedOf returns "<short pkg>.<Type>" for a (pointer to a) named type.
+func namedOf(t types.Type) string {
+	if p, ok := t.(*types.Pointer); ok {
+		t = p.Elem()
+	}
+	if n, ok := t.(*types.Named); ok && n.Obj().Pkg() != nil {
+		return shortPkg(n.Obj().Pkg().Path()) + "." + n.Obj().Name()
+	}
+	return ""
+}
+
+func isIdent(e ast.Expr, name string) bool {
+	id, ok := e.(*ast.Ident)
+	return ok && id.Name == name
+}
+
+// callOn matches `<recv>.<method>(args...)` with recv an identifier; returns recv name and args.
+func callOn(e ast.Expr, method string) (string, []ast.Expr, bool) {
+	ce, ok := e.(*ast.CallExpr)
+	if !ok {
+		return "", nil, false
+	}
+	se, ok := ce.Fun.(*ast.SelectorExpr)
+	if !ok || se.Sel.Name != method {
+		return "", nil, false
+	}
+	id, ok := se.X.(*ast.Ident)
+	if !ok {
+		return "", nil, false
+	}
+	return id.Name, ce.Args, true
+}
+
+func selOn(e ast.Expr, recv, field string) bool {
+	se, ok := e.(*ast.SelectorExpr)
+	return ok && se.Sel.Name == field && isIdent(se.X, recv)
+}
+
+// failGuard: `if err != nil { ...; return false, <x> }`
+func failGuard(fset *token.FileSet, st ast.Stmt) bool {
+	is, ok := st.(*ast.IfStmt)
+	if !ok || is.Init != nil || is.Else != nil || render(fset, is.Cond) != "err != nil" || len(is.Body.List) == 0 {
+		return false
+	}
+	rs, ok := is.Body.List[len(is.Body.List)-1].(*ast.ReturnStmt)
+	return ok && len(rs.Results) == 2 && isIdent(rs.Results[0], "false") && !isIdent(rs.Results[1], "nil")
+}
+
+// classifyValidate inspects one `Validate(ctx, signedTx) (bool, error)` method.
+func classifyValidate(pkg *packages.Package, fd *ast.FuncDecl) (cls string, retsOK bool) {
+	retsOK = true
+	allFalse := true
+	var firstTrue token.Pos = token.NoPos
+	ast.Inspect(fd.Body, func(n ast.Node) bool {
+		if _, ok := n.(*ast.FuncLit); ok {
+			return false
+		}
+		rs, ok := n.(*ast.ReturnStmt)
+		if !ok {
+			return true
+		}
+		if len(rs.Results) != 2 {
+			retsOK = false
+			allFalse = false
+			return true
+		}
+		switch {
+		case isIdent(rs.Results[0], "false") && !isIdent(rs.Results[1], "nil"):
+		case isIdent(rs.Results[0], "true") && isIdent(rs.Results[1], "nil"):
+		default:
+			retsOK = false
+		}
+		if !isIdent(rs.Results[0], "false") {
+			allFalse = false
+			if firstTrue == token.NoPos || rs.Pos() < firstTrue {
+				firstTrue = rs.Pos()
+			}
+		}
+		return true
+	})
+	if allFalse {
+		return "rejectAll", retsOK
+	}
+	if fd.Type.Params == nil || len(fd.Type.Params.List) != 2 || len(fd.Type.Params.List[1].Names) != 1 {
+		return "unchecked", retsOK
+	}
+	txName := fd.Type.Params.List[1].Names[0].Name
+	msgVar := ""
+	list := fd.Body.List
+	for i, st := range list {
+		as, ok := st.(*ast.AssignStmt)
+		if !ok || len(as.Rhs) != 1 || len(as.Lhs) != 1 || !isIdent(as.Lhs[0], "err") {
+			continue
+		}
+		guarded := i+1 < len(list) && failGuard(pkg.Fset, list[i+1])
+		if recv, args, ok := callOn(as.Rhs[0], "Unmarshal"); ok && len(args) == 1 && selOn(args[0], txName, "Data") && guarded && msgVar == "" {
+			msgVar = recv
+			continue
+		}
+		ce, ok := as.Rhs[0].(*ast.CallExpr)
+		if !ok || msgVar == "" || !guarded {
+			continue
+		}
+		if firstTrue != token.NoPos && firstTrue < as.Pos() {
+			continue
+		}
+		// action.ValidateBasic(tx.RawBytes(), msg.Signers(), tx.Signatures)
+		var callee types.Object
+		switch f := ce.Fun.(type) {
+		case *ast.SelectorExpr:
+			callee = pkg.TypesInfo.Uses[f.Sel]
+		case *ast.Ident:
+			callee = pkg.TypesInfo.Uses[f]
+		}
+		fn, _ := callee.(*types.Func)
+		if fn == nil {
+			continue
+		}
+		if fn.FullName() == modPath+"/action.ValidateBasic" && len(ce.Args) == 3 {
+			r0, a0, ok0 := callOn(ce.Args[0], "RawBytes")
+			r1, a1, ok1 := callOn(ce.Args[1], "Signers")
+			if ok0 && ok1 && r0 == txName && len(a0) == 0 && r1 == msgVar && len(a1) == 0 && selOn(ce.Args[2], txName, "Signatures") {
+				return "basic", retsOK
+			}
+		}
+		// msg.validateSigner(ctx, tx)   (OLVM: EIP-155 sender recovery)
+		if strings.HasSuffix(fn.FullName(), "action/olvm.Transaction).validateSigner") && len(ce.Args) == 2 {
+			if r, _, ok := callOn(ce, "validateSigner"); ok && r == msgVar && isIdent(ce.Args[1], txName) {
+				return "ethSigner", retsOK
+			}
+		}
+	}
+	return "unchecked", retsOK
+}
+
+// validateGuard extracts how an entry point reacts to handler.Validate failing.
+func validateGuard(fset *token.FileSet, fd *ast.FuncDecl) []string {
+	var out []string
+	ast.Inspect(fd.Body, func(n ast.Node) bool {
+		bs, ok := n.(*ast.BlockStmt)
+		if !ok || out != nil {
+			return out == nil
+		}
+		for i, st := range bs.List {
+			var guard *ast.IfStmt
+			has := func(x ast.Node) bool {
+				found := false
+				ast.Inspect(x, func(m ast.Node) bool {
+					if ce, ok := m.(*ast.CallExpr); ok {
+						if se, ok := ce.Fun.(*ast.SelectorExpr); ok && se.Sel.Name == "Validate" {
+							found = true
+						}
+					}
+					return !found
+				})
+				return found
+			}
+			switch s := st.(type) {
+			case *ast.IfStmt:
+				if s.Init != nil && has(s.Init) {
+					guard = s
+				}
+			case *ast.AssignStmt:
+				if has(s) && i+1 < len(bs.List) {
+					guard, _ = bs.List[i+1].(*ast.IfStmt)
+				}
+			}
+			if guard == nil {
+				continue
+			}
+			code, returns := "", false
+			ast.Inspect(guard.Body, func(m ast.Node) bool {
+				switch x := m.(type) {
+				case *ast.ReturnStmt:
+					returns = true
+				case *ast.KeyValueExpr:
+					if isIdent(x.Key, "Code") {
+						code = render(fset, x.Value)
+					}
+				}
+				return true
+			})
+			if returns {
+				out = []string{fd.Name.Name, render(fset, guard.Cond), "validate-guard", code}
+				return false
+			}
+		}
+		return true
+	})
+	return out
+}
+
 func main() {
 	repo := flag.String("repo", "/repo", "repository root")
 	out := flag.String("out", "", "output directory (OLP/Gen)")
@@ -144,7 +349,9 @@ func main() {
 		fmt.Fprintln(os.Stderr, "load:", err)
 		os.Exit(1)
 	}
-	var hookAims, sessionRule, mapRanges, envUses, volatileSets, fatalSites, signerRows, checkRuns, checkStateDB, pinned rows
+	var hookAims, sessionRule, mapRanges, envUses, volatileSets, fatalSites, signerRows, checkRuns, checkStateDB, pinned, validateRows, routeRows, validateGuards rows
+	funcDecls := map[types.Object]*ast.FuncDecl{}
+	funcPkg := map[types.Object]*packages.Package{}
 	nerr := 0
 	for _, pkg := range pkgs {
 		for _, e := range pkg.Errors {
@@ -174,6 +381,50 @@ func main() {
 					printer.Fprint(&b, pkg.Fset, &ast.FuncDecl{Name: fd.Name, Recv: fd.Recv, Type: fd.Type, Body: fd.Body})
 					h := sha256.Sum256([]byte(strings.Join(strings.Fields(b.String()), " ")))
 					pinned = append(pinned, []string{qfn, hex.EncodeToString(h[:6])})
+				}
+				if obj := pkg.TypesInfo.Defs[fd.Name]; obj != nil {
+					funcDecls[obj] = fd
+					funcPkg[obj] = pkg
+				}
+				// ---- C04: router registrations and external-app transaction literals
+				ast.Inspect(fd.Body, func(n ast.Node) bool {
+					switch x := n.(type) {
+					case *ast.CallExpr:
+						if se, ok := x.Fun.(*ast.SelectorExpr); ok && se.Sel.Name == "AddHandler" && len(x.Args) == 2 {
+							h := ""
+							if tv, ok := pkg.TypesInfo.Types[x.Args[1]]; ok {
+								h = namedOf(tv.Type)
+							}
+							if _, isLit := ast.Unparen(x.Args[1]).(*ast.CompositeLit); !isLit {
+								if ue, ok := x.Args[1].(*ast.UnaryExpr); !ok || ue.Op != token.AND {
+									h = "dynamic:" + render(pkg.Fset, x.Args[1])
+								}
+							}
+							routeRows = append(routeRows, []string{qfn, render(pkg.Fset, x.Args[0]), h})
+						}
+					case *ast.CompositeLit:
+						if tv, ok := pkg.TypesInfo.Types[x]; ok && namedOf(tv.Type) == "external_apps/common.ExtTx" {
+							h, m := "", ""
+							for _, el := range x.Elts {
+								if kv, ok := el.(*ast.KeyValueExpr); ok {
+									if tv, ok := pkg.TypesInfo.Types[kv.Value]; ok {
+										if isIdent(kv.Key, "Tx") {
+											h = namedOf(tv.Type)
+										} else if isIdent(kv.Key, "Msg") {
+											m = namedOf(tv.Type)
+										}
+									}
+								}
+							}
+							routeRows = append(routeRows, []string{qfn, "ext:" + m, h})
+						}
+					}
+					return true
+				})
+				if short == "app" && (fd.Name.Name == "txDeliverer" || fd.Name.Name == "txChecker") {
+					if g := validateGuard(pkg.Fset, fd); g != nil {
+						validateGuards = append(validateGuards, g)
+					}
 				}
 				// ---- hook aims (package app only)
 				if short == "app" && hookFuncs[fd.Name.Name] {
@@ -469,6 +720,46 @@ func main() {
 			visit(r)
 		}
 	}
+	// ---- C04: every type implementing action.Tx, with the classification of its Validate
+	var txIface *types.Interface
+	for _, pkg := range pkgs {
+		if pkg.PkgPath == modPath+"/action" && pkg.Types != nil {
+			if o := pkg.Types.Scope().Lookup("Tx"); o != nil {
+				txIface, _ = o.Type().Underlying().(*types.Interface)
+			}
+		}
+	}
+	if txIface != nil {
+		for _, pkg := range pkgs {
+			if pkg.Types == nil {
+				continue
+			}
+			sc := pkg.Types.Scope()
+			for _, name := range sc.Names() {
+				tn, ok := sc.Lookup(name).(*types.TypeName)
+				if !ok || tn.IsAlias() {
+					continue
+				}
+				T := tn.Type()
+				if _, isIface := T.Underlying().(*types.Interface); isIface {
+					continue
+				}
+				if !types.Implements(T, txIface) && !types.Implements(types.NewPointer(T), txIface) {
+					continue
+				}
+				obj, _, _ := types.LookupFieldOrMethod(T, true, pkg.Types, "Validate")
+				fd := funcDecls[obj]
+				if pos := pkg.Fset.Position(tn.Pos()).Filename; strings.HasSuffix(pos, "_test.go") {
+					continue
+				}
+				cls, rets := "unchecked", false
+				if fd != nil {
+					cls, rets = classifyValidate(funcPkg[obj], fd)
+				}
+				validateRows = append(validateRows, []string{namedOf(T), cls, fmt.Sprint(rets)})
+			}
+		}
+	}
 	if nerr > 0 {
 		fmt.Fprintf(os.Stderr, "facts: %d package errors (type information may be incomplete)\n", nerr)
 	}
@@ -484,6 +775,9 @@ func main() {
 	sortRows(checkStateDB)
 	sortRows(pinned)
 	sortRows(sessionRule)
+	sortRows(validateRows)
+	sortRows(routeRows)
+	sortRows(validateGuards)
 	// hookAims keep source order per function; sort functions by name (stable)
 	sort.SliceStable(hookAims, func(i, j int) bool { return hookAims[i][0] < hookAims[j][0] })
 	var sb strings.Builder
@@ -509,6 +803,17 @@ func main() {
 	sb.WriteString(checkRuns.lean("checkRuns", "Use", use))
 	sb.WriteString(checkStateDB.lean("checkStateDB", "Use", use))
 	sb.WriteString(pinned.lean("pinned", "Use", use))
+	sb.WriteString("structure ValidateRow where\n  handler : String\n  cls : String\n  retsOK : Bool\n  deriving DecidableEq, Repr\n\n")
+	sb.WriteString("structure RouteRow where\n  fn : String\n  kind : String\n  handler : String\n  deriving DecidableEq, Repr\n\n")
+	sb.WriteString(validateRows.lean("validateRows", "ValidateRow", func(x []string) string {
+		return fmt.Sprintf("⟨%s, %s, %s⟩", lq(x[0]), lq(x[1]), x[2])
+	}))
+	sb.WriteString(routeRows.lean("routeRows", "RouteRow", func(x []string) string {
+		return fmt.Sprintf("⟨%s, %s, %s⟩", lq(x[0]), lq(x[1]), lq(x[2]))
+	}))
+	sb.WriteString(validateGuards.lean("validateGuards", "SessionRule", func(x []string) string {
+		return fmt.Sprintf("⟨%s, %s, %s, %s⟩", lq(x[0]), lq(x[1]), lq(x[2]), lq(x[3]))
+	}))
 	// option-copy setters of InitChain vs start-up, normalised to "<store>.<setter>"
 	norm := func(fn string) rows {
 		var r rows
@@ -532,6 +837,6 @@ func main() {
 		os.Exit(1)
 	}
 	ioutil.WriteFile(stamp, []byte(key), 0644)
-	fmt.Printf("facts: hookAims=%d sessionRule=%d mapRanges=%d envUses=%d volatileSets=%d fatalSites=%d signerRows=%d\n",
-		len(hookAims), len(sessionRule), len(mapRanges), len(envUses), len(volatileSets), len(fatalSites), len(signerRows))
+	fmt.Printf("facts: hookAims=%d sessionRule=%d mapRanges=%d envUses=%d volatileSets=%d fatalSites=%d signerRows=%d validateRows=%d routeRows=%d validateGuards=%d\n",
+		len(hookAims), len(sessionRule), len(mapRanges), len(envUses), len(volatileSets), len(fatalSites), len(signerRows), len(validateRows), len(routeRows), len(validateGuards))
 }
